@@ -97,9 +97,11 @@ class Ctx:
 
     def compare(self, stage: str, cases: list, model_out: list, impl_out: list):
         assert len(cases) == len(model_out) == len(impl_out), (len(cases), len(model_out), len(impl_out))
+        from harness.wire import canon_floats
+
         for c, m, i in zip(cases, model_out, impl_out):
             self.corr_compared += 1
-            if m != i:
+            if m != i and canon_floats(m) != canon_floats(i):
                 if len(self.disagreements) < 50:
                     self.disagree(stage, c, m, i)
                 else:
